@@ -1,10 +1,80 @@
 import Vegeta.Go.Proto
-/-! Driver operations of property C16 (ops are named `c16.<name>`). -/
+import Vegeta.Model.ParserGuards
+import Vegeta.Driver.C19
+/-! Driver operations of property C16 (ops are named `c16.<name>`); the flag parsers are
+served by the C19 operations (`c19.*`), the bucket parser also by `hist.unmarshal`. -/
 namespace Vegeta.Driver.C16
-open Vegeta.Go Vegeta.Go.Proto
+open Vegeta.Go Vegeta.Go.Proto Vegeta.Model.ParserGuards
 
-def handle (_op : String) (args : List String) : Option String :=
-  match _op with
+def showKind : ReportKind → String
+  | .text => "text"
+  | .json => "json"
+  | .jsonBuckets bs => "jsonb " ++ showInts bs
+  | .hdrplot => "hdrplot"
+  | .hist bs => "hist " ++ showInts bs
+
+def handle (op : String) (args : List String) : Option String :=
+  if op.startsWith "c19." then Vegeta.Driver.C19.handle op args else
+  match op with
+  | "c16.csvrec" => do
+    -- b64ok mimeok n f1 … fn : the library results for field 6 / field 11 are inputs
+    let ((b64ok, mimeok, fs), _) ← (do
+      let a ← bool; let b ← bool; let fs ← listOf bytes; pure (a, b, fs)).run args
+    let b64 : Bytes → Option Bytes := fun f => if b64ok then some f else none
+    let mime : Bytes → Option Unit := fun _ => if mimeok then some () else none
+    match csvToResult b64 mime fs with
+    | .ok r => pure s!"ok {r.timestamp} {r.code} {r.latency} {r.bytesOut} {r.bytesIn} {r.seq} {hexEncode r.error} {hexEncode r.attack} {hexEncode r.method} {hexEncode r.url}"
+    | .error _ => pure "err"
+    | .panic => pure "panic"
+  | "c16.reporttype" => do
+    let ((t, b), _) ← (do let t ← bytes; let b ← bytes; pure (t, b)).run args
+    match reportType t b with
+    | .ok _ => pure "ok"      -- the report kind is not observable through the command's result
+    | .error e =>
+      pure (if e == eInvalidType then "err invalid" else if e == ePlotDeprecated then "err plot"
+            else if e == eBadBucketsTyp then "err badbuckets" else if e == eUnknownType then "err unknown"
+            else if e == Vegeta.Model.Histogram.eBadBuckets then "err badbuckets" else "err duration")
+    | .panic => pure "panic"
+  | "c16.reportkind" => do
+    let ((t, b), _) ← (do let t ← bytes; let b ← bytes; pure (t, b)).run args
+    match reportType t b with
+    | .ok k => pure ("ok " ++ showKind k)
+    | .error _ => pure "err"
+    | .panic => pure "panic"
+  | "c16.httpskip" => do
+    let (inp, _) ← (bytes).run args
+    match skipLoop (scanLines inp) with
+    | .ok none => pure "none"
+    | .ok (some _) => pure "some"
+    | .error _ => pure "err"
+    | .panic => pure "panic"
+  | "c16.httpskipline" => do
+    let (inp, _) ← (bytes).run args
+    match skipLoop (scanLines inp) with
+    | .ok none => pure "none"
+    | .ok (some (l, _)) => pure ("some " ++ hexEncode l)
+    | .error _ => pure "err"
+    | .panic => pure "panic"
+  | "c16.bodyref" => do
+    let (l, _) ← (bytes).run args
+    match bodyRef l with
+    | .ok none => pure "none"
+    | .ok (some p) => pure ("some " ++ hexEncode p)
+    | .error _ => pure "err"
+    | .panic => pure "panic"
+  | "c16.jsonskip" => do
+    let (inp, _) ← (bytes).run args
+    -- `ReadBytes('\n')`: only newline-terminated lines are delivered without an error
+    let lines := (Vegeta.Model.Histogram.splitOn 10 inp).dropLast
+    match jsonSkipLoop lines with
+    | none => pure "none"
+    | some _ => pure "some"
+  | "c16.unmarshalidx" => do
+    let (b, _) ← (bytes).run args
+    match unmarshalTextIdx b with
+    | .ok bs => pure ("ok " ++ showInts bs)
+    | .error _ => pure "err"
+    | .panic => pure "panic"
   | _ => none
 
 end Vegeta.Driver.C16
